@@ -11,7 +11,8 @@ From Coq Require Import List NArith ZArith Bool.
 Import ListNotations.
 From LV Require Import Model.Base Model.Template Model.Eval Model.Derived Model.EvalRun
   Proofs.FrameProofs Proofs.TemplateFrame Proofs.FrameTheorem Proofs.RestrictProofs Proofs.SufficientProofs
-  Proofs.CleanProofs Proofs.FingerprintProofs Proofs.CacheSim Proofs.CoveredDefs Proofs.CoveredProofs.
+  Proofs.CleanProofs Proofs.FingerprintProofs Proofs.CacheSim Proofs.CoveredDefs Proofs.CoveredProofs
+  Proofs.AgreeProofs Proofs.C11Proofs Proofs.C10C01.
 
 Notation evalN u fuel := (eval unit nc_find nc_store cfg_nc u fuel (fun _ _ => true)).
 Notation keysN u fuel := (keys unit nc_find nc_store cfg_nc u fuel (fun _ _ => true)).
@@ -40,6 +41,18 @@ Theorem C01_history_transparent : forall u fuel cfg site_ok sites esw h,
   run_hist u fuel cfg site_ok h [] = map (ref_op u fuel) h.
 Proof. exact history_transparent_from_empty. Qed.
 Print Assumptions C01_history_transparent.
+
+(** The same with C10's agreement PROVED instead of assumed ([agree_at] is one of the conjuncts of
+    [okd]): when the cached expressions are in C10's fragment [pA] (Proofs/AgreeProofs.v), user code
+    is total and fabricates no deferred failures, every option value resolves and no cached
+    expression fails for a value outside its declared domain, the agreement follows from
+    [C10_same_cause] (Proofs/C10C01.v) and the history theorem needs, per cache site, only: clean,
+    no stored generator, stable effects switch ([hist_ok10]). *)
+Theorem C01_history_transparent_C10 : forall u fuel sites esw, total_u u -> clean_u u ->
+  forall cfg site_ok h, hist_ok10 u fuel sites esw h ->
+  run_hist u fuel cfg site_ok h [] = map (ref_op u fuel) h.
+Proof. exact history_transparent_C10. Qed.
+Print Assumptions C01_history_transparent_C10.
 
 (** The invariant behind it, for any starting store all of whose entries are correct, and the
     one-step simulation (evaluate, validate and keys at once) it is built from. *)
